@@ -86,8 +86,14 @@ CLAIMED['C09'] = dict(
          'identifier computation, signature hashing, script verification) with symbolic operation selectors and operands, run against a ghost model: after every step every live object '
          '(mutable, snapshots, copies) must serialise / identify / compare / hash as its ghost; plus setattr/delattr on every slot of every immutable class raising AttributeError and cached identifiers == recomputed.',
     note='history length is the bound (quick: all of length 2 and the snapshot/copy-first histories of length 3); SHA-256 uninterpreted, hash() compared through its argument.')
+CLAIMED['C12'] = dict(
+    text=_T + 'for every chain history of <= 3 SelectParams calls and every standard template with fully symbolic 20/32-byte payload: script -> address -> text -> address -> script is the identity '
+         'with class, version byte / hrp and payload as prescribed for the final chain; non-canonical-push and bare compressed-pubkey variants map to the P2PKH address of the key hash; every '
+         'cross-chain text (chains with different prefixes), every witness version 1..16, Base58Check payload lengths 0..34 with known/symbolic version bytes and arbitrary short strings are '
+         'refused with CBitcoinAddressError (exposed the AssertionError and the payload-length defects, both fixed; bare uncompressed pubkey is a recorded known finding).',
+    note='base58 text is an opaque object in the symbolic run (compositional with C10); mutual exclusivity of the two text formats assumed (2^-32); hashes uninterpreted.')
 _UC = 'check not built yet in this round (engine exists; harness pending) - will be claimed or declared not applicable with its real reason'
-for _i in ['C05','C12','C14','C19']:
+for _i in ['C05','C14','C19']:
     NA[_i] = _UC
 NA['C13'] = ('key derivation, signing, verification and point validity are computed by OpenSSL through ctypes: there is no Python or IR to execute '
              'symbolically, and the reference (secp256k1 group law, 256-bit modular inversion) is non-linear 256-bit arithmetic out of reach of z3/cvc5')
